@@ -291,6 +291,10 @@ def oracle_file(case):
     return out
 
 
+def _legacy(case):
+    return any("*" in a["name"] for a in case.get("atoms", []))
+
+
 def classify(case):
     atoms = case["atoms"]
     info = case.get("_info", {"connected": 0, "broken": 0, "chi": 0})
@@ -309,6 +313,8 @@ def classify(case):
         labs.append("chi-compared")
     if case.get("model_number") not in (None, 1):
         labs.append("single-model-not-numbered-1")
+    if _legacy(case):
+        labs.append("atom-names-in-pre-2007-spelling")
     if case.get("dialect"):
         labs.append("cif-dialect-" + case["dialect"].get("identity", "both"))
         if case["dialect"].get("label_seq") == "author" and case["dialect"].get("identity") != "label":
@@ -368,6 +374,10 @@ def st_cases():
                     n += 1
             if atomtab.spread(flat, 0.6) and all(-900 < a[other] < 9000 for a in flat):
                 atoms = flat
+        if draw(st.integers(0, 5)) == 0:
+            # the atom naming of files written before 2007 (and of older modelling tools): O5*, C1*, O3* for O5', C1', O3'.
+            # Every reader owes the names as written - and all four readings the same answers about these residues
+            atoms = [dict(a, name=a["name"].replace("'", "*")) for a in atoms]
         return {"atoms": atoms, "null": draw(st.sampled_from(["?", "."])), "dialect": dialect, "model_number": draw(st.sampled_from([1, 1, 1, 2, 0, 7]))}
 
     return build()
